@@ -70,6 +70,18 @@ CLAIMS = {
     technique="Lean 4 proof (codec round-trip, defaulting, order-independence by induction over schemas; decimal and split/join round trips) + differential correspondence on value trees and line bytes",
     note=NOTE_COMMON + " The JSON text layer (serde_json tokens, escapes, number formatting/parsing) is trusted; truncated / bit-flipped text goes to the real parser only and must not panic (a test). "
          "rule_json_array_parser is called as serde_json::from_str::<Vec<Rule>> because the datasource features do not build offline."),
+ "C20": dict(
+    category="proof",
+    text=("Model: the deal_with_sentinel! macro (build entry; admitted: call inner once, await, exit on Ok and on Err; rejected: fallback or error) over the sequential World model; inner outcome "
+          "scripts {ready Ok, ready Err, pending-then-Ok, pending-then-Err}. Theorems: inner_called_once_iff_admitted, rejected_gets_fallback_or_error, admitted_reply, released_on_ready_outcome "
+          "(in-flight count after = before, response or error), released_on_pending_outcome (exactly one admission held while in flight, given back by the completing poll, response or error); "
+          "dropped_future_keeps_admission documents the separately reported case. Tie: the real sentinel_tower::SentinelService around a scripted inner tower::Service, futures polled by hand, "
+          "server and client role, with/without fallback, isolation/flow rules so that a leaked admission becomes a visible rejection; reply, inner call count and in-flight count compared after "
+          "every operation; the Spec (from the implementation's own replies) demands count = number of admitted unfinished requests."),
+    design_ref="DESIGN.md §6 C20",
+    technique="Lean 4 proof (middleware step functions over the World model, using C04's accounting theorems) + differential correspondence on the real Tower service",
+    note=NOTE_COMMON + " Own harness crate /verif/harness-tower (path dependencies on /repo/middleware/tower and /repo/sentinel-core). The tonic interceptor is not exercised (tonic 0.8 is not in the "
+         "offline registry). Found and fixed with this check: D11 (exit skipped when the inner service errs; fix: commit a01c729)."),
  "C08": dict(
     category="translation_validation",
     text=("PARTIAL. Proved in Lean: structural theorems about the executable warm-up calculator for every state/threshold/clock (sync_stored_le_max, sync_once_per_second, sync_idempotent, "
